@@ -107,7 +107,7 @@ def correspondence(ctx):
     core.assert_repo_loaded()
     # corpus (D64 and D10 witnesses) first, then generated cases, in one batch
     res = sched.explore(ctx, [dict(c) for c in CORPUS]
-                        + gen_cases(ctx.rng, ctx.pick(14, 70), ["failslast", "failslast", "random", "greedy", "lazy"]),
+                        + gen_cases(ctx.rng, ctx.pick(12, 70), ["failslast", "failslast", "random", "greedy", "lazy"]),
                         spec, "C14 failure isolation")
     forced = [bool((o.get("race") or {}).get("forced")) for (c, o, _, _, _) in res if c.get("race")]
     ctx.extra["intra_poll_races_forced"] = sum(forced)
